@@ -569,7 +569,7 @@ pub fn render_word(w: &Word) -> String {
 pub const VAR_NAMES: [&str; 3] = ["x", "y", "u"];
 
 /// Literal characters that are safe unquoted in any position of a word we generate.
-const SAFE_LITS: [char; 6] = ['a', 'b', 'c', '1', ':', '-'];
+const SAFE_LITS: [char; 8] = ['a', 'b', 'c', '1', ':', '-', 'é', '.'];
 
 pub struct Gen<'a> {
     pub rng: &'a mut Rng,
